@@ -161,7 +161,7 @@ func init() {
 	reg("C01",
 		"Structure of the connection loop and of the serializer, decided on all paths: (R-C01-rearm) the per-command goroutine writes exactly once and re-arms the read only after a successful write, the socket is read only under the wait state, dispatching and re-arming are exclusive — one command in flight, replies in request order; (R-C01-consume) the buffer is advanced by exactly the length the parser returned for the dispatched value, is otherwise only appended to, and no parser object survives a read — replies depend on the concatenated bytes only; (R-C01-lenprefix) every length prefix is len() of the payload written; (R-C01-line) the line emitter strips CR/LF or no simple/error string embeds request bytes.",
 		"that the parser answers 'need more' for every strict prefix of a frame (argued from its left-to-right determinism, not checked)",
-		nil, ruleC01Rearm, ruleC01Consume, ruleC01LenPrefix, ruleC01Line, ruleC01Frame, ruleParserBounds, rulePoolEscape, ruleC01SingleWriter, ruleBytesOpaque, ruleFormatConst, ruleC01PayloadUntouched)
+		nil, ruleC01Rearm, ruleC01Consume, ruleC01LenPrefix, ruleC01Line, ruleC01Frame, ruleParserBounds, rulePoolEscape, ruleC01SingleWriter, ruleBytesOpaque, ruleFormatConst, ruleC01PayloadUntouched, ruleReplyNotDropped, ruleC01EndsOnReadError)
 	reg("C02",
 		"Structural clauses of the string/counter family: command identity from the normalised token (R-cmdident), the signed-overflow idiom compares with the other addend (R-overflow-idiom) or, written with sign tests, separates exactly the overflowing sign combinations (R-overflow-signs, 19 combinations enumerated), a sum of two outside 64-bit numbers is overflow-tested and a negated one excludes the smallest integer (R-overflow-checked), floats become reply text in fixed notation (R-float-text), MSETNX checks before it writes (R-C02-msetnx-phase), every argument the handlers read is produced by the grammar with that type (A7, redisKeys.go), the string commands flagged readonly reach no mutation site (A5-readonly). (A4-inert, string family) no failure point is reachable after a change point: validation precedes the first write.",
 		"reply values, clamping arithmetic of GETRANGE/SETRANGE, LCS output, float formatting, TTL classes (keep/reset/from-argument)",
@@ -177,11 +177,11 @@ func init() {
 	reg("C05",
 		"Structural clauses of the set family: commands flagged readonly (SINTER/SUNION/SDIFF/SMEMBERS/…) reach no mutation site of database state — the algebra workers never modify an operand, they work on fresh dictionaries (A5-readonly; write commands reach one); emptiness test after member removal (A4-empty), insertion after creation (A4-nonempty-create), nil-tested accessors, argument agreement (A7, redisSet.go). (R-payload-own) every installed payload is a new object or the same key's own, never an operand's dictionary; (R-store-nonempty) a computed set is installed only when its count is not zero; (R-C05-operand-loop) workers leave the operand loop early only for failure or the absorbing empty set; (R-C05-self-move) SMOVE compares its two key names; (A4-inert) failed set commands change nothing.",
 		"that the computed set equals the mathematical result (membership is a runtime value); SRANDMEMBER/SPOP selection; replies such as the 0/1 of SMOVE",
-		nil, ruleReadonly(tokenScope("set")), rulePayloadOwn, ruleOperandLoop, ruleStoreNonEmpty, ruleSelfMove, ruleDictReadersPure, ruleDictIterateModify, ruleDictKeyCompare, family(2, "set", ruleA4Empty), family(1, "set", ruleNonEmptyCreate), family(3, "set", ruleTypedNil), family(3, "set", ruleA4Inert), a7Family(10, "set"))
+		nil, ruleReadonly(tokenScope("set")), rulePayloadOwn, ruleOperandLoop, ruleStoreNonEmpty, ruleSelfMove, ruleDictReadersPure, ruleDictIterateModify, ruleDictKeyCompare, ruleScanPatternApplied, family(2, "set", ruleA4Empty), family(1, "set", ruleNonEmptyCreate), family(3, "set", ruleTypedNil), family(3, "set", ruleA4Inert), a7Family(10, "set"))
 	reg("C06",
 		"Structural necessary conditions of keyspace discipline, decided for every site of the current source: (A4-empty) after every site that can shrink a list/hash/set every path to the end of the critical section tests the aggregate's count against zero and removes the key on the empty side; (A4-nonempty-create) an element is inserted after every creation of an empty aggregate; (R-payload-agree) every type assertion on a key's payload is dominated by a test of the key-type flag and asserts the Go type producers store for that flag; (R-ctor-agree) list constructors (COPY, load) set the full field set; (R-typed-nil) typed-accessor results are nil-tested before dereference (WRONGTYPE before any use); (A7, redisCore.go) options of the keyspace commands are producible by the grammar; (A6) the keyspace commands (EXISTS, TYPE, RENAME(NX), COPY, KEYS, RANDOMKEY, DBSIZE ...) see the keyspace only through an expiry filter, so an expired key is absent for them as the property demands. (A4-inert) in every handler and store method no failure point is reachable after a change point; (R-payload-own, R-store-nonempty) payload objects are never shared between keys and computed aggregates are installed only when non-empty.",
 		"glob matching, SORT ordering, DBSIZE/KEYS values, deep-copy equality of COPY/RENAME as values",
-		nil, ruleA4Empty, ruleNonEmptyCreate, rulePayloadAgree, ruleDictValueAgree, ruleBytesOpaque, ruleStoreReplaces, ruleStringPayloadNonNil, ruleSortKeysDefined, ruleDictKeyCompare, ruleCloneCarries, ruleCtorAgree, ruleTypedNil, ruleA6, ruleA4Inert, rulePayloadOwn, ruleStoreNonEmpty, ruleSameKeyOrder, ruleDictReadersPure, a7Files(20, "redisCore.go"))
+		nil, ruleA4Empty, ruleNonEmptyCreate, rulePayloadAgree, ruleDictValueAgree, ruleBytesOpaque, ruleStoreReplaces, ruleStringPayloadNonNil, ruleSortKeysDefined, ruleDictKeyCompare, ruleCloneCarries, ruleWrongTypeReported, ruleScanPatternApplied, ruleCtorAgree, ruleTypedNil, ruleA6, ruleA4Inert, rulePayloadOwn, ruleStoreNonEmpty, ruleSameKeyOrder, ruleDictReadersPure, a7Files(20, "redisCore.go"))
 	reg("C07",
 		"A6 (who-may-read the keyspace raw): every read of a database's keyspace dictionary goes through an expiry filter (tests isExpired, yields (nil,false) on the expired edge), or is an iteration that tests isExpired per element, or is the snapshot writer (identified as the function that drives the gob encoder). This is exactly the universally quantified 'every command treats an expired key as missing' clause.",
 		"deadline arithmetic, TTL/PTTL/EXPIRETIME values, NX/XX/GT/LT comparisons, which commands keep/reset/set the deadline, behaviour at the deadline instant (time is a runtime quantity)",
@@ -199,15 +199,15 @@ func init() {
 		"A4-version: 'every kind of modification is visible to the comparison at EXEC' is a claim over all write sites: every mutation site of database state (including replacement of the whole keyspace by a flush) has, on every path through it inside its critical section, an event that gives the key a new version id or removes it from the keyspace. A6: the version comparison and the capture at WATCH use the expiry-aware lookup. R-C09-reset: the watch set is cleared on every exit of EXEC/DISCARD.",
 		"the 'iff' across arbitrary interleavings (follows from C08's lock argument plus this rule); expiry-as-modification timing; re-WATCH of an already watched key",
 		[]string{"a helper that looks the key up and bumps its version is given the key of the object being modified (the not-found edge of that lookup is not followed)"},
-		ruleA4Version, ruleA6, ruleC09Reset, ruleFreshID, ruleC10WatchDB, ruleNameObjectAgree, ruleC10BumpNeedsChange)
+		ruleA4Version, ruleA6, ruleC09Reset, ruleFreshID, ruleC10WatchDB, ruleNameObjectAgree, ruleC10BumpNeedsChange, ruleParallelIndex)
 	reg("C11",
 		"Structure of the block/wake protocol, decided on all paths of the current source: try → register → try again → wait; a waiter that was woken (and thereby unlinked from every queue) registers again before it waits again; registrations are disposed on every exit; waiters are woken before the database mutex is released, through a buffered channel; every function that can make a list non-empty releases the lock through the waking wrapper and records how many elements it inserted. The wake in the release wrapper dominates every return (no path skips it, e.g. when the pusher owns the exclusive lock).",
 		"FIFO fairness, exactly-once delivery across interleavings, element order — schedule properties; no model of the scheduler is built (that would be a different technique family); RENAME/COPY/RESTORE placing a list under a waited key",
-		nil, ruleC11Protocol, ruleC11Wake, ruleC11UnlinkAll, ruleDeferCurrentValue, ruleNameObjectAgree)
+		nil, ruleC11Protocol, ruleC11Wake, ruleC11UnlinkAll, ruleDeferCurrentValue, ruleNameObjectAgree, ruleC11RegisterAll)
 	reg("C12",
 		"Structure of how a blocking wait ends: the select has exactly the three arms mailbox/timer/wake; capture is paired with releaseCapture on all paths; registration is unreachable when the command runs from EXEC; CLIENT UNBLOCK's reply depends on the unblock result; closing/killing a connection reaches the unblock of its blocked command. (R-C12-deadline) the wait timer is armed with a remaining time computed from the clock where it is armed; (R-C12-timeout-agree) all blocking commands convert their timeout argument by the same expression; (R-C12-write-deadline) a write deadline, if any, is taken after the command ran; (R-C12-state-cas) the capture state changes only by CompareAndSwap between named states or by its transient owner.",
 		"timing ('no earlier than t', 'promptly'); races between unblock, push and timer",
-		nil, ruleC12, ruleC12Deadline, ruleC12TimeoutAgree, ruleC12Mailbox, ruleC12WriteDeadline, ruleC12StateCAS, ruleC12PendingReset, ruleDeferCurrentValue)
+		nil, ruleC12, ruleC12Deadline, ruleC12TimeoutAgree, ruleC12Mailbox, ruleC12WriteDeadline, ruleC12StateCAS, ruleC12PendingReset, ruleDeferCurrentValue, ruleReplyNotDropped, ruleC12TransientLeft)
 	reg("C13",
 		"No path of these crash/stall classes is reachable from the socket: (A7) every single-result type assertion on a value taken from a command's args agrees with what the grammar-driven parser stores for every token that reaches it, and every panic in the default arm of a key switch has a case for every producible key; (R-typed-nil) no nil typed-accessor result is dereferenced; (R-payload-agree) no payload assertion can fail for a key type; (lock-balanced, A2-reentrant) no command returns holding, or self-deadlocks on, the database mutex; (R-cmdident) handler behaviour does not depend on the client's spelling of the command.",
 		"bounds safety of indexes computed from server-side lengths or by bit arithmetic (bitMath.go, bitmapUtils.go are outside A8), explicit panic() calls guarding internal invariants, termination of loops, memory growth, reply latency",
@@ -228,9 +228,9 @@ func init() {
 	reg("C19",
 		"(A4-dirty) every mutation site of database state marks the database dirty on every path inside its critical section; (R-C19-all-dbs) the saver ranges over the whole database table; (R-C19-records) writer and loader agree on the record stream: no stored entry is skipped, every header/key-object field is written and read back, both branch on every key type; (R-C19-atomic-replace) the snapshot is written to a temporary file, closed, then renamed; (R-C14-dbtable) a flushed database keeps its table entry, so its emptiness is saved; (R-payload-agree/R-ctor-agree) writer and loader use the canonical payload types and build complete lists. (R-C14-enumerate) the enumeration of databases to save is complete.",
 		"gob round-trip equality of values; on-disk states at crash points beyond the create/rename structure (needs execution or a file-system model)",
-		nil, ruleA4Dirty, ruleC19AllDbs, ruleC14Enumerate, ruleC19Records, ruleC19Atomic, ruleC19Startup, ruleC14DbTable, rulePayloadAgree, ruleCtorAgree, ruleStringPayloadNonNil, ruleC19ErrorUsed)
+		nil, ruleA4Dirty, ruleC19AllDbs, ruleC14Enumerate, ruleC19Records, ruleC19Atomic, ruleC19Startup, ruleC14DbTable, rulePayloadAgree, ruleCtorAgree, ruleStringPayloadNonNil, ruleC19ErrorUsed, ruleC19SaverEnds, ruleC19FinalSaveUncond)
 	reg("C20",
 		"Structure of start-up and shutdown: RequestTermination reaches a close request for the registered connections and WaitForTermination waits for their goroutines; no process-terminating call is reachable from the API; package-level state written at run time is instance-agnostic; the port retry loop depends on an error its callee can return. (R-C20-cancel-exits) the termination arm of a select in a goroutine loop never flows back to the select; (R-C20-term-releases) RequestTermination releases listener and cancel function on every path except the nil side of a test of that very field.",
 		"timing of Close, port release by the OS",
-		nil, ruleC20Close, ruleC20NoExit, ruleC20InstanceState, ruleC20Retry, ruleC20CancelExits, ruleC20TermPass, ruleC20Accounted, ruleC20Callback, ruleC20APIOwnInstance)
+		nil, ruleC20Close, ruleC20NoExit, ruleC20InstanceState, ruleC20Retry, ruleC20CancelExits, ruleC20TermPass, ruleC20Accounted, ruleC20Callback, ruleC20APIOwnInstance, ruleC20CountedNoSend, ruleC19SaverEnds, ruleC19FinalSaveUncond)
 }
